@@ -10,6 +10,8 @@ CONSTANTS
     MaxNow = 100000000
     MaxOps = 100000000
     MaxQ = 1000
+    InsertFirst = FALSE
+    WithHold = TRUE
     Hist = TRUE
 CONSTRAINT Furthest
 INVARIANT TraceInv
